@@ -41,6 +41,8 @@ type ColDef struct {
 	pk      bool
 	notnull bool
 	dialectType string
+	foreignType bool // a type name outside the set both dialects' schemas use
+	numericAffinity bool // SQLite: a declared type without INT/CHAR/CLOB/TEXT/BLOB in its name gives NUMERIC (or REAL) affinity
 }
 
 type SQLStmt struct {
@@ -599,7 +601,23 @@ func (p *sqlParser) createStmt() (*SQLStmt, error) {
 			cd.typ = "INTEGER"
 			cd.autoinc = true
 		default:
-			return nil, fmt.Errorf("unsupported column type %q", p.peek())
+			// any other declared type name: SQLite accepts every name and derives the column's affinity from it
+			// (https://www.sqlite.org/datatype3.html 3.1); Postgres rejects unknown type names (checked by the schema loader)
+			if ty == "" || ty == "," || ty == ")" || !isIdentLike(ty) {
+				return nil, fmt.Errorf("unsupported column type %q", p.peek())
+			}
+			switch {
+			case strings.Contains(ty, "INT"):
+				cd.typ = "INTEGER"
+			case strings.Contains(ty, "CHAR"), strings.Contains(ty, "CLOB"), strings.Contains(ty, "TEXT"):
+				cd.typ = "TEXT"
+			case strings.Contains(ty, "BLOB"):
+				cd.typ = "BLOB"
+			default:
+				cd.typ = "TEXT" // holds what the code writes, but converts text that looks like a number
+				cd.numericAffinity = true
+			}
+			cd.foreignType = true
 		}
 		p.next()
 		cd.dialectType = ty
@@ -899,4 +917,13 @@ func (p *sqlParser) primary() (*SQLExpr, error) {
 		e = &SQLExpr{op: "cast", name: ty, args: []*SQLExpr{e}}
 	}
 	return e, nil
+}
+
+func isIdentLike(s string) bool {
+	for i, r := range s {
+		if !(r == '_' || (r >= 'A' && r <= 'Z') || (r >= 'a' && r <= 'z') || (i > 0 && r >= '0' && r <= '9')) {
+			return false
+		}
+	}
+	return s != ""
 }
